@@ -13,6 +13,7 @@ import GoNfsd.Model.Fsck
 import GoNfsd.Lemmas.FsckMeta
 import GoNfsd.Lemmas.Names
 import GoNfsd.Lemmas.Refs
+import GoNfsd.Lemmas.Named
 
 namespace GoNfsd.Props.C04
 open GoNfsd.Model.Fsck GoNfsd.Gen.Consts GoNfsd.Gen.Super
@@ -321,6 +322,28 @@ theorem no_object_has_two_names (u : Bool) (sz : Nat)
     (h2 : GoNfsd.Model.Fs.Ref (GoNfsd.Model.Fs.run (GoNfsd.Model.Fs.mkfs u sz) ops).1 d2 i2 ino) :
     d1 = d2 ∧ i1 = i2 :=
   (namespace_wellformed_in_every_reachable_state u sz ops).ur d1 i1 d2 i2 ino h1 h2
+
+/-- EXACTLY ONE NAME: in every reachable state of the reference file system every object in use
+    other than the root has a name (nothing is orphaned by REMOVE, RMDIR or a RENAME over a
+    target: what is freed has no entries of its own), the root has none, and — by
+    `no_object_has_two_names` — that name is the only one. -/
+theorem every_live_object_has_a_name (u : Bool) (sz : Nat)
+    (ops : List (GoNfsd.Model.Fs.Op × GoNfsd.Model.Fs.Choice)) (ino : Nat)
+    (hk : ((GoNfsd.Model.Fs.run (GoNfsd.Model.Fs.mkfs u sz) ops).1.get ino).kind ≠ 0)
+    (hr : ino ≠ GoNfsd.Gen.Consts.ROOTINUM) :
+    ∃ d idx, GoNfsd.Model.Fs.Ref (GoNfsd.Model.Fs.run (GoNfsd.Model.Fs.mkfs u sz) ops).1 d idx ino :=
+  (GoNfsd.Model.Fs.run_WFO _ ops (GoNfsd.Model.Fs.WFO_mkfs u sz)).named ino hk hr
+
+/-- the root is a directory and has no name, in every reachable state: it can be neither removed
+    nor renamed nor overwritten -/
+theorem root_is_permanent (u : Bool) (sz : Nat)
+    (ops : List (GoNfsd.Model.Fs.Op × GoNfsd.Model.Fs.Choice)) :
+    ((GoNfsd.Model.Fs.run (GoNfsd.Model.Fs.mkfs u sz) ops).1.get GoNfsd.Gen.Consts.ROOTINUM).kind
+      = GoNfsd.Gen.Consts.NF3DIR ∧
+    ∀ d idx, ¬ GoNfsd.Model.Fs.Ref (GoNfsd.Model.Fs.run (GoNfsd.Model.Fs.mkfs u sz) ops).1 d idx
+      GoNfsd.Gen.Consts.ROOTINUM :=
+  ⟨(GoNfsd.Model.Fs.run_WFO _ ops (GoNfsd.Model.Fs.WFO_mkfs u sz)).root_dir,
+   (GoNfsd.Model.Fs.run_WFO _ ops (GoNfsd.Model.Fs.WFO_mkfs u sz)).root_unnamed⟩
 
 /-- Non-vacuity: a history with a cross-directory RENAME onto an existing target reaches a state
     with names in two directories. -/
